@@ -8,7 +8,8 @@
 (* sample values in harness/drivers/compvalidation; MonCompValidation      *)
 (* judges the outcome.  Families (input.fam):                              *)
 (*   patch      one patch: type x from x to x transform chain (<= 2) x     *)
-(*              policy x inline / through a PatchSet x schema variants     *)
+(*              policy x inline / through a PatchSet x schema variants x   *)
+(*              on the first resource (kind Thing) / the second (Other)    *)
 (*   mode       webhook: annotation x feature flag x available CRDs x body *)
 (*   ready      one readiness check: type x field path x match fields      *)
 (*   conn       one connection detail: type x field path                   *)
@@ -17,10 +18,15 @@
 (*   DesignSound  the validator's static typing (ValAccepts) accepts no    *)
 (*                patch whose dynamic type flow (Run) has a type error -   *)
 (*                except in the cells of KnownCells.  With KnownCells = {} *)
-(*                (witness cfg) TLC must find the counterexamples.         *)
+(*                (witness_sound cfg) TLC must find the counterexamples;   *)
+(*                KnownCells = {ConvertFormatOnInteger} is the open finding *)
+(*                D23; with the repaired convert guard switched off        *)
+(*                (witness_convobj cfg: FixConvertObject <- NoFix) it must *)
+(*                find the ConvertObjectInput counterexample again.        *)
 (*   RefTotal     both type systems are defined on the whole domain.       *)
-(* and, by ASSUME, on all chains up to length 3 over all source and        *)
-(* destination types (DesignSoundDeep) - beyond what is replayed.          *)
+(* MCCompValidation_deep.cfg checks DesignSound on all chains of three     *)
+(* transforms over all source and destination types - beyond what is       *)
+(* replayed (model only, nothing emitted).                                 *)
 (***************************************************************************)
 EXTENDS CompValidation, Json
 CONSTANTS Tier, Fams, KnownCells
@@ -28,15 +34,19 @@ VARIABLES input, out
 vars == <<input, out>>
 
 \* --------------------------------------------------------------- chains
-Core == {"math.mul", "math.min", "map", "str.fmt", "str.upper", "str.join", "cv.string", "cv.int64", "cv.float64", "cv.float64.q", "cv.object.j", "cv.object", "cv.array.j"}
+Core == {"math.mul", "math.min", "map", "str.fmt", "str.upper", "str.join", "cv.string", "cv.int64", "cv.float64.q", "cv.object.j", "cv.object"}
 Chains1 == {<<>>} \cup {<<t>> : t \in Transforms}
 Chains2(S1, S2) == {<<a, b>> : a \in S1, b \in S2}
 ChainsQuick == Chains1 \cup Chains2(Core, Core)
 ChainsAll == Chains1 \cup Chains2(Transforms, Transforms)
 
+\* beyond the replayed bound (Tier = "deep", the model only, nothing is emitted): chains of three transforms
+Chains3 == {<<a, b, c>> : a \in Transforms, b \in Transforms, c \in Core}
+
 \* -------------------------------------------------------------- patches
 PV(pt, via, from, to, ch, pol, vs, cs, xrs, cds) ==
-  [fam |-> "patch", ptype |-> pt, via |-> via, from |-> from, to |-> to, chain |-> ch, pol |-> pol, vars |-> vs, cstrat |-> cs, xrs |-> xrs, cds |-> cds]
+  [fam |-> "patch", ptype |-> pt, via |-> via, from |-> from, to |-> to, chain |-> ch, pol |-> pol, vars |-> vs, cstrat |-> cs, xrs |-> xrs, cds |-> cds, res |-> "r1"]
+OnR2(v) == [v EXCEPT !.res = "r2"]
 Field(pt, from, to, ch) == PV(pt, "inline", from, to, ch, "nil", <<>>, "none", "typed", "typed")
 From == "FromCompositeFieldPath"
 To == "ToCompositeFieldPath"
@@ -44,14 +54,17 @@ SrcTyped == {"str", "int", "num", "bool", "obj", "arr"}
 DstTyped == {"str", "int", "num", "bool", "obj", "arr", "freek"}
 SrcWide == SrcTyped \cup {"map", "ios", "freek"}
 DstWide == DstTyped \cup {"ios", "map", "unset"}
-\* type matrix: source type x destination type x chain
-Matrix ==
-  IF Tier = "quick"
-  THEN {Field(From, f, t, ch) : f \in SrcTyped, t \in DstTyped, ch \in ChainsQuick}
-       \cup {Field(To, f, t, ch) : f \in SrcTyped, t \in DstTyped, ch \in Chains1}
-       \cup {Field(From, f, "unset", ch) : f \in SrcTyped, ch \in Chains1}
-  ELSE {Field(From, f, t, ch) : f \in SrcWide, t \in DstWide, ch \in ChainsAll}
-       \cup {Field(To, f, t, ch) : f \in SrcWide, t \in DstWide, ch \in ChainsQuick}
+\* type matrix: source type x destination type x chain.  Written as a predicate on `input` (TLC enumerates nested
+\* quantifiers without building - and sorting - the set of records, which costs minutes for 10^5 vectors)
+InMatrix ==
+  IF Tier = "deep" THEN \E f \in SrcWide, t \in {"str", "int", "num", "obj", "arr", "freek"}, ch \in Chains3 : input = Field(From, f, t, ch)
+  ELSE IF Tier = "witness" THEN \E f \in {"obj", "num", "int"}, t \in {"obj", "num"}, ch \in Chains1 \cup Chains2({"math.min"}, {"cv.float64.q"}) : input = Field(From, f, t, ch)
+  ELSE IF Tier = "quick"
+  THEN \/ \E f \in SrcTyped, t \in DstTyped, ch \in ChainsQuick : input = Field(From, f, t, ch)
+       \/ \E f \in SrcTyped, t \in DstTyped, ch \in Chains1 : input = Field(To, f, t, ch)
+       \/ \E f \in SrcTyped, ch \in Chains1 : input = Field(From, f, "unset", ch)
+  ELSE \/ \E f \in SrcWide, t \in DstWide, ch \in ChainsAll : input = Field(From, f, t, ch)
+       \/ \E f \in SrcWide, t \in DstWide, ch \in ChainsQuick : input = Field(To, f, t, ch)
 \* field paths: every key as a source (destination of unknown type) and as a destination (source of unknown / string type)
 Paths ==
   {Field(pt, f, t, <<>>) : pt \in {From, To, "default"}, f \in AllKeys, t \in {"freek", "unset"}}
@@ -59,22 +72,32 @@ Paths ==
   \cup {PV(pt, via, f, t, <<>>, pol, <<>>, "none", "typed", "typed") :
           pt \in {From, To}, via \in {"inline", "patchset"}, f \in {"str", "int", "nope", "xonly", "conly", "unset"}, t \in {"str", "int", "nope", "unset"},
           pol \in {"nil", "empty", "Optional", "Required"}}
-SomeKeys == {"str", "int", "arr0", "nope", "strx", "mname", "mbogus", "wild", "bad", "xonly"}
+\* the second resource (kind Other): its patches are typed with ITS schema
+Second ==
+  {OnR2(Field(pt, f, t, ch)) : pt \in {From, To}, f \in {"str", "int", "xonly", "conly", "oonly", "nope"}, t \in {"str", "int", "xonly", "conly", "oonly", "freek", "unset"},
+                               ch \in {<<>>, <<"str.fmt">>, <<"math.mul">>}}
+  \cup {OnR2(PV(pt, "patchset", f, t, <<>>, "nil", <<>>, "none", vp[1], vp[2])) : pt \in {From, To}, f \in {"str", "conly", "oonly"}, t \in {"str", "conly", "oonly"},
+                               vp \in {<<"typed", "typed">>, <<"typed", "noschema">>, <<"preserve", "typed">>}}
+  \cup {OnR2(PV(pt, "inline", "unset", t, <<>>, "nil", vs, "string", "typed", "typed")) : pt \in CombineTypes, t \in {"str", "oonly", "conly", "xonly"},
+                               vs \in {<<"str", "oonly">>, <<"conly">>, <<"xonly">>, <<"oonly">>}}
+SomeKeys == IF Tier = "quick" THEN {"str", "int", "nope", "strx", "mname", "mbogus", "xonly"} ELSE {"str", "int", "arr0", "nope", "strx", "mname", "mbogus", "wild", "bad", "xonly"}
 VariantPairs == IF Tier = "quick" THEN {<<"typed", v>> : v \in Variants} \cup {<<v, "typed">> : v \in Variants} \cup {<<v, v>> : v \in Variants}
                 ELSE Variants \X Variants
-Schemas ==
-  {PV(pt, "inline", f, t, ch, "nil", <<>>, "none", vp[1], vp[2]) :
-     pt \in (IF Tier = "quick" THEN {From} ELSE {From, To}), f \in SomeKeys, t \in SomeKeys \cup {"unset"}, ch \in {<<>>, <<"math.mul">>, <<"str.fmt">>}, vp \in VariantPairs}
+InSchemas ==
+  \E pt \in (IF Tier = "quick" THEN {From} ELSE {From, To}), f \in SomeKeys, t \in (IF Tier = "quick" THEN {"str", "int", "nope", "mname", "unset"} ELSE SomeKeys \cup {"unset"}),
+     ch \in (IF Tier = "quick" THEN {<<>>, <<"str.fmt">>} ELSE {<<>>, <<"math.mul">>, <<"str.fmt">>}), vp \in VariantPairs :
+       input = PV(pt, "inline", f, t, ch, "nil", <<>>, "none", vp[1], vp[2])
 \* combine
 VarLists == {<<"str">>, <<"str", "int">>, <<"int", "obj">>, <<"nope">>, <<"str", "nope">>, <<"freek", "str">>, <<"ios">>, <<"xonly">>, <<"conly">>, <<"bad", "str">>, <<>>}
 CombineChains == {<<>>, <<"cv.int64">>, <<"math.mul">>, <<"str.upper">>, <<"cv.int64", "math.mul">>, <<"str.join">>, <<"cv.object.j">>, <<"cv.object.j", "cv.object">>, <<"map">>}
 Combines ==
   {PV(pt, via, "unset", t, ch, pol, vs, "string", "typed", "typed") :
-     pt \in CombineTypes, via \in {"inline"}, t \in {"str", "int", "num", "obj", "nope", "freek", "ios", "wild", "mlabel"}, ch \in CombineChains,
+     pt \in CombineTypes, via \in {"inline"}, t \in (IF Tier = "quick" THEN {"str", "int", "obj", "nope", "freek"} ELSE {"str", "int", "num", "obj", "nope", "freek", "ios", "wild", "mlabel"}),
+     ch \in (IF Tier = "quick" THEN {<<>>, <<"cv.int64">>, <<"math.mul">>, <<"cv.int64", "math.mul">>, <<"str.join">>, <<"cv.object.j", "cv.object">>} ELSE CombineChains),
      pol \in {"nil"}, vs \in VarLists}
   \cup {PV(pt, via, "unset", t, <<>>, pol, <<"str", "int">>, cs, "typed", "typed") :
           pt \in CombineTypes, via \in {"inline", "patchset"}, t \in {"str", "int", "unset"}, pol \in {"nil", "Optional", "Required"}, cs \in {"string", "nocfg", "bogus", "none"}}
-PatchVectors == Matrix \cup Paths \cup Schemas \cup Combines
+InPatch == IF Tier \in {"witness", "deep"} THEN InMatrix ELSE InMatrix \/ InSchemas \/ input \in Paths \/ input \in Combines \/ input \in Second
 
 \* ----------------------------------------------------------------- mode
 ModeVectors ==
@@ -109,11 +132,11 @@ Shapes == {"empty", "noresources", "pipeline-noresources", "pipeline-with-resour
            \cup {"tr:" \o t : t \in BadTransforms} \cup {"tr:cv.int64+" \o t : t \in BadTransforms} \cup {"tr:map+" \o t : t \in BadTransforms}
 MalformedVectors == {[fam |-> "malformed", shape |-> s] : s \in Shapes}
 
-Domain(f) == CASE f = "patch" -> PatchVectors [] f = "mode" -> ModeVectors [] f = "ready" -> ReadyVectors [] f = "conn" -> ConnVectors
-               [] f = "malformed" -> MalformedVectors
+InDomain(f) == CASE f = "patch" -> InPatch [] f = "mode" -> input \in ModeVectors [] f = "ready" -> input \in ReadyVectors [] f = "conn" -> input \in ConnVectors
+                 [] f = "malformed" -> input \in MalformedVectors
 
 \* ------------------------------------------------------------------ spec
-Init == /\ \E f \in Fams : input \in Domain(f)
+Init == /\ \E f \in Fams : InDomain(f)
         /\ out = "-"
 Compute == /\ out = "-"
            /\ out' = "done"
@@ -122,15 +145,12 @@ Spec == Init /\ [][Compute]_vars
 Emit == PrintT(<<"VEC", ToJson(input')>>)
 
 \* ------------------------------------------ design-level properties (M)
+NoFix == FALSE      \* for the definition override of FixConvertObject in the witness cfg
 DesignSound == input.fam = "patch" => DesignSoundFor(input, KnownCells)
+\* the same after the Compute step (the witness cfg uses it: TLC reports no state count for a violated initial state)
+DesignSoundDone == out = "done" => DesignSound
 RefTotal == input.fam = "patch" =>
               /\ ValAccepts(input) \in BOOLEAN
               /\ \A g \in StartSet(input) : TypeErr(input.chain, g) \in {"always", "never", "some"} /\ Cell(input.chain, g) \in {"ConvertObjectInput", "ConvertFormatOnInteger", "Applies"}
               /\ DstClass(input) # "nokey" \/ ~LogicallyValid(input)
-\* beyond the replayed bound: all chains up to length 3 over all typed sources and destinations (the model only)
-Chains3 == ChainsAll \cup {<<a, b, c>> : a \in Transforms, b \in Transforms, c \in Core}
-DesignSoundDeep ==
-  \A f \in SrcWide : \A t \in {"str", "int", "num", "bool", "obj", "arr", "freek"} : \A ch \in Chains3 :
-    DesignSoundFor(Field(From, f, t, ch), {"ConvertObjectInput", "ConvertFormatOnInteger"})
-ASSUME Tier # "thorough" \/ DesignSoundDeep
 =============================================================================
